@@ -40,7 +40,10 @@ Bases == [top : TopRecords, comp : CompRecords]
 \* programs: what they contribute (paths, schemas), "absent" = empty
 Programs == {[name |-> "empty",   paths |-> "absent", schemas |-> "absent"],
              [name |-> "paths",   paths |-> "prog",   schemas |-> "absent"],
-             [name |-> "schemas", paths |-> "prog",   schemas |-> "prog"]}
+             [name |-> "schemas", paths |-> "prog",   schemas |-> "prog"],
+             \* operations that carry tags, summaries, operationIds and descriptions of their own: nothing of that may
+             \* reach the parts of the document that belong to the base
+             [name |-> "tagged",  paths |-> "prog",   schemas |-> "prog"]}
 
 NoComponents == [f \in AllComp \cup {"present"} |-> IF f = "present" THEN "no" ELSE "absent"]
 
